@@ -616,7 +616,8 @@ def _build_and_check(unit, h, ctext, info, outdir, nocache=False, trace_prop=Non
     if h.solver:
         cb += ['--sat-solver', h.solver]
     cb += [base + '.i.gb' if h.dfcc else base + '.gb']
-    key = hashlib.sha256(('\0'.join([ctext, ' '.join(cc[3:-3]), ' '.join(gi[1:-2]), ' '.join(cb[1:-1]), tool_version()] + (['pre_unwind=%s' % h.pre_unwind] if getattr(h, 'pre_unwind', None) else []))).encode()).hexdigest()
+    key = hashlib.sha256(('\0'.join([ctext, ' '.join(cc[3:-3]), ' '.join(gi[1:-2]), ' '.join(cb[1:-1]), tool_version()] + (['pre_unwind=%s' % h.pre_unwind] if getattr(h, 'pre_unwind', None) else [])
+                                  + ['|'.join(c.get('desc', '') for f in sorted(info['functions']) for c in info['functions'][f].get('clauses', []))])).encode()).hexdigest()   # (clause descriptions carry the [Cxx] tags)
     cache_dir = os.path.join(OUT, 'cache')
     cpath = os.path.join(cache_dir, key + '.json')
     res = {'unit': unit, 'harness': h.name, 'method': h.method, 'props': list(h.props), 'enforce': h.enforce,
